@@ -5,8 +5,12 @@ FAMILIES = ['plain', 'timeout', 'kill', 'resize']
 PER_FAMILY = (300, 6000)
 
 
+PROOF = dict(prop_file='Props/C03.v', theorems=['C03_at_most_once', 'C03_cancelled_never_executed', 'C03_cancel_is_final', 'C03_result_from_own_execution', 'C03_token_unique'], tf_families=['plain', 'timeout', 'kill', 'resize'], tf_per_family=(100, 1500),
+             note='map() chunking (C03_map) is not yet in the model; value payloads are abstracted to the work id that produced them')
+
+
 def run(ctx):
-    return S.sim_check(ctx, FAMILIES, FAMILIES, PER_FAMILY, S.SIM_ASSUME)
+    return S.sim_check(ctx, FAMILIES, FAMILIES, PER_FAMILY, S.SIM_ASSUME, proof=PROOF)
 
 
 def replay(ctx, path):
